@@ -331,7 +331,7 @@ def structural_pairs(year):
     return f
 
 
-def explore_all(run, pid, tier, years=(2021, 2022, 2023), depth_quick=1, depth_thorough=2, bases=None,
+def explore_all(run, pid, tier, years=(2021, 2022, 2023), depth_quick=1, depth_thorough=2, bases=None, quick_bases=None,
                 deep_quick=('B0-single-wage',), finding_key=None):
     """explore every base of every year; feeds a runner.Run"""
     for year in years:
@@ -344,7 +344,7 @@ def explore_all(run, pid, tier, years=(2021, 2022, 2023), depth_quick=1, depth_t
                     depth = 1      # two deviations on B0 (all years) and on the five quick bases of 2023; one elsewhere
             else:
                 depth = depth_quick
-                if bases is None and base.name not in QUICK_BASES:
+                if bases is None and base.name not in (quick_bases or QUICK_BASES):
                     depth = 0      # the other bases contribute their base return only in the quick tier
             st = explore(year, base, depth, pid, pair_filter=structural_pairs(year) if depth >= 2 else None)
             run.states += st['nodes']
